@@ -211,6 +211,19 @@ class RefEncoder:
             # a producer may repeat the identical options row at the start of a frame
             self.rows.append(jwire.mkrow("options", self.options))
 
+    def prefetch(self, st) -> None:
+        """Define the lookup entries of the next statement's first IRI ahead of time."""
+        self.pinned = {}
+        for t in st:
+            if t[0] == "I":
+                if self.prefixes.size:
+                    prefix, name = split_iri(t[1])
+                    self._entry(self.prefixes, "prefix", prefix)
+                else:
+                    name = t[1]
+                self._entry(self.names, "name", name)
+                return
+
     def finish(self) -> None:
         if self.pt == 3 and self.graph_open is not None:
             self.rows.append(jwire.mkrow("graph_end", {}))
@@ -222,6 +235,7 @@ class RefEncoder:
 ALL_FEATURES = frozenset({
     "resend", "slot", "explicit-entry-id", "split", "empty-prefix-entry", "explicit-ref",
     "no-elide", "regraph", "frames", "repeat-options", "version", "single-frame",
+    "leading-empty", "early-entry",
 })
 
 
@@ -236,12 +250,21 @@ def encode(chooser, seq, physical: int, sizes, *, namespaces=(), features=ALL_FE
     single = "single-frame" in features and chooser.choose(2, "single-frame") == 1
     if single:
         enc.features = enc.features - {"frames", "repeat-options"}
+    lead = 0
+    if "leading-empty" in features and not single:
+        lead = chooser.choose(3, "leading-empty")
+    if lead == 1:
+        enc.frames.append(([], {}))
+    elif lead == 2:
+        enc.frames.append(([], {"lead": b"\x01"}))
     enc.start()
     for name, iri in namespaces:
         enc.namespace(name, iri)
     for i, st in enumerate(seq):
         if i or namespaces:
             enc.maybe_cut("statement")
+        if i + 1 < len(seq) and enc._c("early-entry", 2, "early-entry"):
+            enc.prefetch(seq[i + 1])
         enc.statement(st)
     enc.finish()
     raw = [jwire.enc_frame(rows, meta) for rows, meta in enc.frames]
